@@ -63,8 +63,17 @@ def gen_model_config(rng: random.Random, k_max: int = 6, wide: bool = False,
     if rng.random() < 0.4:
         nf = rng.randrange(1, 3)
         cfg['fixed'] = [[f'fx{i}', rng.choice([0.0, 1.0, -0.5, 0.25])] for i in range(nf)]
-    if allow_cliff and rng.random() < 0.3:
+    cfg['kink'] = None
+    r_ = rng.random()
+    if allow_cliff and r_ < 0.3:
         cfg['cliff'] = {'param': rng.randrange(k), 'scale': 800.0}
+    elif allow_cliff and r_ < 0.5:
+        # -|b - at| written as -exp(0.5*log((b-at)^2)): finite value but non-finite gradient exactly at the kink
+        kp = rng.randrange(k)
+        at = rng.choice([0.25, -0.5, 0.0])
+        if cfg['init'][kp] == at:
+            at += 0.125     # the start itself must have finite derivatives
+        cfg['kink'] = {'param': kp, 'at': at}
     if weight and rng.random() < 0.5:
         cfg['weight'] = rng.choice(['col', 'expr'])
     if bounds:
@@ -172,6 +181,11 @@ def build_formulas(cfg: dict, cliff: bool = True, name_map: dict | None = None,
     if cliff and cfg.get('cliff'):
         cp = cfg['cliff']
         ll = ll - exp(cp['scale'] * (blist[cp['param']] - 1.0))
+    if cliff and cfg.get('kink'):
+        from biogeme.expressions import log as _log
+        kp = cfg['kink']
+        dk = blist[kp['param']] - kp['at']
+        ll = ll - exp(0.5 * _log(dk * dk))
     weight = None
     if cfg.get('weight') == 'col':
         weight = v('w')
@@ -217,6 +231,9 @@ def ref_loglike(cfg: dict, table, x: dict, per_row: bool = False, cliff: bool = 
                 val -= math.exp(cp['scale'] * (vals[cp['param']] - 1.0))
             except OverflowError:
                 val = -math.inf
+        if cliff and cfg.get('kink'):
+            kp = cfg['kink']
+            val -= abs(vals[kp['param']] - kp['at'])
         out.append(val)
     return out if per_row else sum(out)
 
